@@ -28,6 +28,7 @@ func init() {
 }
 
 func runC13(c *Ctx) {
+	c13R13(c)
 	r1 := c.R.Rule("R1", "K2 ProcessorNode.Processor is assigned only in applyPendingSwap (and the node constructor)", 2)
 	procF := c.Field(r1, pStream, "ProcessorNode", "Processor")
 	c.WhoMayWrite(r1, "ProcessorNode.Processor", procF, []string{pStream + ".(*ProcessorNode).applyPendingSwap", pLife + ".(*Service).buildProcessorNode"}, nil)
@@ -439,6 +440,7 @@ func isMsgChanType(t types.Type) bool {
 }
 
 func runC16(c *Ctx) {
+	c16R13(c)
 	c06StopAndWait(c, c.R.Rule("R9", "K3 (= C06.R3) what the restart path relies on: StopAndWait returns nil only after Stop[ok] → WaitPipeline[ok] → WaitPersisted[completed], in both engines", 8))
 	r8 := c.R.Rule("R8", "K8 what counts as running: provisioning.isRunningStatus answers true for StatusRunning and StatusRecovering (a pipeline parked in its recovery back-off is about to restart: it needs the authorisation and the drain like a running one)", 2)
 	if fn := c.SSA(r8, pProv, "isRunningStatus"); fn != nil && len(fn.Params) == 1 {
